@@ -72,3 +72,13 @@ Theorem C02_percall_all_done_at_rest :
     forall i, In i (subm (base x)) -> fdone (getf (base x) i) = true.
 Proof. intros c n prog x H1 H2 H3 H4 H5. exact (proj1 (proj2 (step_rest c n prog x H1 H2 H3 H4 H5))). Qed.
 Print Assumptions C02_percall_all_done_at_rest.
+
+(* ---- the dependency resolver in front of the per-call-process executor (Proofs/DepLiveStep.v) ---- *)
+Theorem C02_resolver_percall_all_done_at_rest :
+  forall c n prog d,
+    dinner c = IStep -> StepLive.fits (dx c) -> (forall i, xraises (dx c) i = false) ->
+    wf_prog n prog -> wf_deps c n -> dreach c (dinit n prog) d ->
+    denabled c d = [] ->
+    forall i, In i (subm (dbase d)) -> fdone (getf (dbase d) i) = true.
+Proof. intros c n prog d H1 H2 H3 H4 H5 H6 H7. exact (proj1 (proj2 (dep_rest_step c n prog d H1 H2 H3 H4 H5 H6 H7))). Qed.
+Print Assumptions C02_resolver_percall_all_done_at_rest.
